@@ -3,6 +3,7 @@ package interp
 // Cooperative deterministic goroutine scheduler, channels and timers.
 
 import (
+	"os"
 	"fmt"
 	"go/token"
 	"go/types"
@@ -40,6 +41,10 @@ type timer struct {
 	fire  func()
 	fired bool
 	dead  bool
+	// external: not a clock but an event from outside the program (a signal): it may be delivered
+	// before any visible step regardless of other timers, and by default only when nothing else,
+	// including every real timer, can run
+	external bool
 }
 
 type scheduler struct {
@@ -217,13 +222,17 @@ func (s *scheduler) fireNextTimer() bool {
 		if t.fired || t.dead {
 			continue
 		}
-		if best == nil || t.at < best.at || (t.at == best.at && t.seq < best.seq) {
+		if best == nil || (best.external && !t.external) || (best.external == t.external && (t.at < best.at || (t.at == best.at && t.seq < best.seq))) {
 			best = t
 		}
 	}
 	if best == nil {
 		return false
 	}
+	return s.fireTimer(best)
+}
+
+func (s *scheduler) fireTimer(best *timer) bool {
 	best.fired = true
 	s.timerFires++
 	if s.timerFires > 40 {
@@ -323,14 +332,23 @@ func (s *scheduler) yieldPoint(g *gor, what string) {
 	}
 	for s.preemptions < s.r.ex.Opts.Preemptions {
 		rs := s.runnable()
-		// a pending timer may also expire now (time passes while goroutines are still running)
+		// a pending timer may also expire now (time passes while goroutines are still running);
+		// every pending external event may be delivered now
 		timerPending := false
+		var externals []*timer
 		for _, t := range s.timers {
 			if !t.fired && !t.dead {
-				timerPending = true
+				if t.external {
+					externals = append(externals, t)
+				} else {
+					timerPending = true
+				}
 			}
 		}
-		if len(rs) <= 1 && !timerPending {
+		if os.Getenv("GOSYM_DEBUG") != "" {
+			fmt.Fprintf(os.Stderr, "yieldPoint g%d %s rs=%d timerPending=%v timers=%d\n", g.id, what, len(rs), timerPending, len(s.timers))
+		}
+		if len(rs) <= 1 && !timerPending && len(externals) == 0 {
 			return
 		}
 		// order: current first (choice 0 = continue)
@@ -339,15 +357,39 @@ func (s *scheduler) yieldPoint(g *gor, what string) {
 		if timerPending {
 			n++
 		}
+		n += len(externals)
 		k := s.r.choose(n)
 		if k == 0 {
 			return
 		}
 		s.preemptions++
-		if k == len(rs) {
-			s.log(fmt.Sprintf("timer expires early (before %s of g%d)", what, g.id))
-			s.fireNextTimer()
-			continue // the goroutines woken by the timer may now be scheduled
+		if k >= len(rs) {
+			before := map[*gor]bool{}
+			for _, r := range rs {
+				before[r] = true
+			}
+			if timerPending && k == len(rs) {
+				s.log(fmt.Sprintf("timer expires early (before %s of g%d)", what, g.id))
+				s.fireNextTimer()
+			} else {
+				e := k - len(rs)
+				if timerPending {
+					e--
+				}
+				s.log(fmt.Sprintf("external event #%d delivered (before %s of g%d)", externals[e].seq, what, g.id))
+				s.fireTimer(externals[e])
+			}
+			// the expiry and the first step of the goroutine it wakes are one scheduling event
+			// (one deviation): a timer that fires without its waiter running is indistinguishable
+			// from a later expiry, except through state the callback itself changed
+			for _, r := range s.runnable() {
+				if !before[r] && r != g {
+					s.log(fmt.Sprintf("  -> g%d(%s) woken by it runs", r.id, r.name))
+					s.transfer(g, r)
+					return
+				}
+			}
+			continue // nothing was woken (the timer ran a callback): the current goroutine goes on
 		}
 		s.log(fmt.Sprintf("preempt g%d(%s) before %s", g.id, g.name, what))
 		s.transfer(g, rs[k])
